@@ -303,6 +303,7 @@ class MainServer(AioServer):
     def __init__(self, root, prefix="/", principal="/user/", autocreate=True, defaults=True,
                  index_threshold=None):
         self.root = root
+        self.raw_prefix = prefix           # handed to --route-prefix as the administrator wrote it
         self.prefix = prefix if prefix.endswith("/") else prefix + "/"
         self.kw = dict(principal=principal, autocreate=autocreate, defaults=defaults)
         self.proc = None
@@ -318,7 +319,7 @@ class MainServer(AioServer):
         s.close()
         args = ["/venv/bin/python", os.path.join(os.path.dirname(os.path.abspath(__file__)), "run_main.py"),
                 "-d", self.root, "--port", str(self.port), "--listen-address", "127.0.0.1",
-                "--route-prefix", self.prefix, "--current-user-principal", self.kw["principal"],
+                "--route-prefix", self.raw_prefix, "--current-user-principal", self.kw["principal"],
                 "--no-detect-systemd"]
         if self.kw["defaults"]:
             args.append("--defaults")
